@@ -87,6 +87,11 @@ def judge(case, ctx, prefix='C16'):
         return
     by_id = {b.id: b for b in net.branches}
     keep = [by_id[k].element for k in case['keep']]
+    if case['keep'] and case['port'] < 0.5:
+        # the exemption list written independently: elements EQUAL to the network's, but not the same objects (a rebuilt description)
+        twin = {b.id: b for b in netdesc.to_lib(desc).branches}
+        keep = [twin[k].element for k in case['keep']]
+        ctx.count('keep_lists_of_equal_but_distinct_elements')
     keep_fp = purity.fp(keep)
     before = purity.fp(net)
     n_open = sum(1 for b in desc['branches'] if b['ctor'] == 'open_circuit')
